@@ -21,22 +21,22 @@ open Yaql.Yaqlized Yaql.Gen.HostFacts
 
 /-- (payload, parameter, host-touching uses tolerated there).  Every row is justified:
 
-1. `Yaqlized.check_value value [getattr]`: the gate itself - `get_yaqlization_settings(value)` is
-   `getattr(value, '__yaqlization__', None)`, the one settings probe every object must undergo
-   (the canary does not count it, as the property statement says).
-2. `Lambda.convert value [getattr]`: KNOWN FINDING K3 `unwrapped-probe` -
+(The gate itself - `get_yaqlization_settings(value)`, i.e. `getattr(value, '__yaqlization__', None)`,
+the one settings probe every object undergoes - is recorded as the use `probe`, which is not host
+touching: the property statement excludes it, and so does the canary.)
+
+1. `Lambda.convert value [getattr]`: KNOWN FINDING K3 `unwrapped-probe` -
    `callable(value) and hasattr(value, '__unwrapped__')` probes a callable host object that reached a
    Lambda-typed parameter through `call(name, args, kwargs)`.
-3. `Lambda._call value [call]`: KNOWN FINDING K3 `callable-host-invoked-via-lambda-param` -
+2. `Lambda._call value [call]`: KNOWN FINDING K3 `callable-host-invoked-via-lambda-param` -
    `elif callable(value): value(*args, **kwargs)` calls that host object with expression-chosen
    arguments.
-4. `indexation key [getattr, escape]`: KNOWN FINDING `indexer-key-startswith-probe` - the key of
+3. `indexation key [getattr, escape]`: KNOWN FINDING `indexer-key-startswith-probe` - the key of
    `obj[key]` is untyped; `_validate_name` calls `key.startswith('_')` and hands the key to the
    whitelist/blacklist entries before any check that it is a string.
 -/
 def exceptions : List (List Char × List Char × List Use) :=
-  [ ("yaql.standard_library.yaqlized.Yaqlized.__init__.<locals>.check_value".toList, "value".toList, [.getattr]),
-    ("yaql.language.yaqltypes.Lambda.convert".toList, "value".toList, [.getattr]),
+  [ ("yaql.language.yaqltypes.Lambda.convert".toList, "value".toList, [.getattr]),
     ("yaql.language.yaqltypes.Lambda._call".toList, "value".toList, [.call]),
     ("yaql.standard_library.yaqlized.indexation".toList, "key".toList, [.getattr, .escape]) ]
 
@@ -69,17 +69,29 @@ theorem yaqlized_rows :
     hasRow "yaql.standard_library.yaqlized.indexation" "obj" (.yaqlized false false true) .subscript = true := by
   decide +kernel
 
-/-- every `Yaqlized(..)` parameter asks for at least one switch, and one that subscripts asks for
-    the indexer switch -/
+/-- every `Yaqlized(..)` parameter asks for at least one switch; one whose payload subscripts the
+    object asks for the indexer switch, one whose payload does getattr on it for the attribute or the
+    method switch; it is never called, formatted or passed to unknown code; and every such payload
+    fetches the settings (`probe`) -/
 theorem yaqlized_flags_match : rows.all (fun r =>
     match r.ty with
-    | .yaqlized a m i => (a || m || i) && (!r.uses.contains .subscript || i)
+    | .yaqlized a m i => (a || m || i) && (!r.uses.contains .subscript || i) &&
+        (!r.uses.contains .getattr || a || m) && r.uses.contains .probe &&
+        r.uses.all (fun u => u == .getattr || u == .subscript || u == .probe)
     | _ => true) = true := by decide +kernel
 
-/-- the scan is not blind: it does see the host-touching uses of the exception rows -/
-theorem exceptions_seen : exceptions.all (fun e =>
-    (rows ++ typeRows).any fun r => r.ty == .open && r.touches && r.payload == e.1 && r.param == e.2.1) = true := by
-  decide +kernel
+/-- the type check of `Yaqlized(..)` does nothing to the object but fetch its settings -/
+theorem yaqlized_checker_probes_only : typeRows.all (fun r =>
+    !(r.payload == "yaql.standard_library.yaqlized.Yaqlized.__init__.<locals>.check_value".toList) ||
+      (r.uses.contains .probe && !r.touches)) = true := by decide +kernel
+
+/-- the scan is not blind (and this does not depend on any of the exception rows staying in the
+    code): it sees the `predicate(..)` calls in the payloads of Lambda-typed parameters, the
+    `str(..)` conversions and the hand-over of untyped values to sibling lambdas -/
+theorem scan_sees_uses :
+    (rows.filter fun r => r.ty == .converted && r.uses.contains .call).length ≥ 20 ∧
+    (rows.filter fun r => r.ty == .open && r.uses.contains .reenter).length ≥ 5 ∧
+    ((rows ++ typeRows).filter fun r => r.uses.contains .strconv).length ≥ 1 := by decide +kernel
 
 /-- no parameter that admits a string is used as a format template (`p % x`, `p.format(..)`), and no
     parameter is formatted by a template that is not a literal of the payload -/
